@@ -501,7 +501,8 @@ func c19AuthorIP(c *Ctx) {
 		for _, b := range hf.Blocks {
 			for _, in := range b.Instrs {
 				if l, ok := in.(*ssa.Lookup); ok && l.CommaOk && core.SameField(fieldOfLoad(l.X), sessF) {
-					if strings.HasSuffix(core.PathOf(l.Index), ".id") {
+					isID := func(v ssa.Value) bool { return strings.HasSuffix(core.PathOf(v), ".id") }
+					if isID(l.Index) || argOfEveryCall(l.Index, isID) {
 						lk = l
 						fn = hf
 					}
@@ -524,51 +525,59 @@ func c19AuthorIP(c *Ctx) {
 			okVal = ex
 		}
 	}
+	ex := &pathExplorer{budget: 60000, anywhere: true}
+	// ofAuthor: v is computed from the session's creator (X.author, possibly through a method call
+	// on it and through the parameter of a helper)
+	var ofAuthor func(v ssa.Value, d int) bool
+	ofAuthor = func(v ssa.Value, d int) bool {
+		if d > 6 || v == nil {
+			return false
+		}
+		v = ex.val(v)
+		if strings.HasSuffix(core.PathOf(v), ".author") {
+			return true
+		}
+		switch x := v.(type) {
+		case *ssa.Call:
+			if x.Call.IsInvoke() {
+				return ofAuthor(x.Call.Value, d+1)
+			}
+			for _, a := range x.Call.Args {
+				if ofAuthor(a, d+1) {
+					return true
+				}
+			}
+		case *ssa.UnOp:
+			return ofAuthor(x.X, d+1)
+		case *ssa.FieldAddr:
+			return ofAuthor(x.X, d+1)
+		case *ssa.Field:
+			return ofAuthor(x.X, d+1)
+		case *ssa.Extract:
+			return ofAuthor(x.Tuple, d+1)
+		}
+		return false
+	}
 	isIPEq := func(v ssa.Value) bool {
 		ci, ok := v.(*ssa.Call)
-		return ok && core.CalleeObjName(ci) == "net.IP.Equal" && strings.Contains(condString(ci.Call.Args[0], 0)+condString(ci.Call.Args[1], 0), "author")
+		return ok && core.CalleeObjName(ci) == "net.IP.Equal" && len(ci.Call.Args) == 2 && ofAuthor(ci.Call.Args[0], 0) != ofAuthor(ci.Call.Args[1], 0)
+	}
+	isZoneCall := func(v ssa.Value) bool {
+		ci, ok := v.(*ssa.Call)
+		return ok && isFn(ci.Call.StaticCallee(), "", "ServerConn.zone")
 	}
 	isZoneCmp := func(v ssa.Value) (bool, bool) { // recognised, equalOnTrue
 		bo, ok := v.(*ssa.BinOp)
 		if !ok || bo.Op != token.EQL && bo.Op != token.NEQ {
 			return false, false
 		}
-		if strings.Contains(condString(bo.X, 0), "ServerConn.zone") && strings.Contains(condString(bo.Y, 0), "ServerConn.zone") {
+		if isZoneCall(bo.X) && isZoneCall(bo.Y) && ofAuthor(bo.X, 0) != ofAuthor(bo.Y, 0) {
 			return true, bo.Op == token.EQL
 		}
 		return false, false
 	}
-	var ipEq *ssa.Call
-	hasZone := false
-	var scanFns []*ssa.Function
-	scanFns = append(scanFns, withHelpers(fn, 1)...)
-	for _, hf := range scanFns {
-		if c := findCall(hf, func(c *ssa.Call) bool { return isIPEq(c) }); c != nil && ipEq == nil {
-			ipEq = c
-		}
-	}
-	for _, hf := range scanFns {
-		for _, b := range hf.Blocks {
-			if iff, ok := b.Instrs[len(b.Instrs)-1].(*ssa.If); ok {
-				c0 := iff.Cond
-				if u, ok := c0.(*ssa.UnOp); ok && u.Op == token.NOT {
-					c0 = u.X
-				}
-				if rec, _ := isZoneCmp(c0); rec {
-					hasZone = true
-				}
-			}
-			// a comparison may also be the value a helper returns
-			for _, in := range b.Instrs {
-				if bo, ok := in.(*ssa.BinOp); ok {
-					if rec, _ := isZoneCmp(bo); rec {
-						hasZone = true
-					}
-				}
-			}
-		}
-	}
-	if okVal == nil || ipEq == nil || !hasZone {
+	sawIP, sawZone := false, false
+	if okVal == nil {
 		r.Fail("C19/AUTHOR-IP", "creator IP / zone comparison", p.Pos(lk.Pos()), "the comparison of the requesting connection's IP and zone with the session creator's is gone")
 		return
 	}
@@ -594,9 +603,8 @@ func c19AuthorIP(c *Ctx) {
 	}
 	type st struct{ ip, zone bool }
 	leak := false
-	ex := &pathExplorer{budget: 60000}
 	ex.inline = func(h *ssa.Function) bool {
-		return h.Pkg == fn.Pkg && !token.IsExported(h.Name()) && h.Signature.Results().Len() == 1 && len(h.Blocks) <= 8
+		return h.Pkg == fn.Pkg && !token.IsExported(h.Name()) && h.Signature.Results().Len() == 1 && len(h.Blocks) > 1 && len(h.Blocks) <= 8 // (single-block helpers are getters: nothing to walk, and their call says more than their body)
 	}
 	ex.onInstr = func(s any, in ssa.Instruction) any {
 		cur := s.(st)
@@ -620,10 +628,12 @@ func c19AuthorIP(c *Ctx) {
 			return cur, pol // follow only the paths on which the session exists
 		}
 		if isIPEq(cond) {
+			sawIP = true
 			cur.ip = cur.ip || pol
 			return cur, true
 		}
 		if rec, eqOnTrue := isZoneCmp(cond); rec {
+			sawZone = true
 			cur.zone = cur.zone || (pol == eqOnTrue)
 			return cur, true
 		}
@@ -633,7 +643,11 @@ func c19AuthorIP(c *Ctx) {
 	sawLookup := false
 	_ = sawLookup
 	ex.run(fn, st{}, func(any, []ssa.Value) {})
-	r.Check(!leak, "C19/AUTHOR-IP", "existing session granted only to the creator's IP and zone", p.Pos(ipEq.Pos()), "the grant is reachable from the lookup's ok edge only through ip.Equal == true and equal zones", "an existing session can be handed to a connection from another address")
+	if !sawIP || !sawZone {
+		r.Fail("C19/AUTHOR-IP", "creator IP / zone comparison", p.Pos(lk.Pos()), "the comparison of the requesting connection's IP and zone with the session creator's is gone")
+		return
+	}
+	r.Check(!leak, "C19/AUTHOR-IP", "existing session granted only to the creator's IP and zone", p.Pos(lk.Pos()), "the grant is reachable from the lookup's ok edge only through ip.Equal == true and equal zones", "an existing session can be handed to a connection from another address")
 }
 
 // pathFromBlockAvoidingE: path from the start of block b to an instruction
